@@ -36,6 +36,25 @@ theorem quo_unitPrice (a : Int) (ha : 0 ≤ a) : Dec.quo (Dec.ofInt a) unitPrice
   rw [e, Int.mul_tdiv_cancel _ (by decide)]
   exact chopRound_exact (a * 1000000 * 1000000000000000000) (by omega)
 
+/-- "truncate, then add one coin when a fraction remains" is the ceiling, for non-negative amounts -/
+theorem ceilCoin_nonneg (d : Int) (h : 0 ≤ d) : ceilCoin d = .ok ((d + 999999999999999999) / 1000000000000000000) := by
+  unfold ceilCoin
+  simp only [bind, Except.bind, pure, Except.pure]
+  rw [truncate_nonneg d h]
+  unfold Dec.ofInt precision
+  have h1 : ¬ (d / 1000000000000000000 < 0) := by omega
+  have h2 : ¬ (d - d / 1000000000000000000 * 1000000000000000000 < 0) := by omega
+  simp only [h1, h2, ↓reduceIte]
+  split
+  · rename_i hnz
+    congr 1
+    have : d - d / 1000000000000000000 * 1000000000000000000 ≠ 0 := hnz
+    omega
+  · rename_i hz
+    congr 1
+    have : ¬ (d - d / 1000000000000000000 * 1000000000000000000 ≠ 0) := hz
+    omega
+
 theorem toI64_small (n : Nat) (h : n < 9223372036854775808) : toI64 n = (n : Int) := by
   unfold toI64
   have : n % 18446744073709551616 = n := Nat.mod_eq_of_lt (by omega)
